@@ -537,6 +537,14 @@ def render_item(repo: Repo, rel, kind, name, opts, rules: Counter, info: dict) -
     if dm and not re.search(r'[;}]', pre[dm.end():]):
         derives = [d.strip() for d in dm.group(1).split(',') if d.strip() in keep]
         rules['D4'] += 1
+    for o in opts:
+        if o.startswith('drop-field='):
+            # S4: a field the verified functions never touch (interior-mutable scratch space) is dropped
+            fld = o[len('drop-field='):]
+            text, k = re.subn(r'\n[^\n]*\b' + re.escape(fld) + r'\s*:[^\n]*,', '', text)
+            if k != 1:
+                raise LostAnchor(f'field {fld} of {kind} {name} not found')
+            rules['S4'] += 1
     if 'pub-fields' in opts:
         text = re.sub(r'pub\(super\)\s+', 'pub ', text)
         # S2: field visibility widened to `pub` (Verus treats a datatype with a private field as opaque)
@@ -552,19 +560,27 @@ def build_unit(template_path: str, repo_root: str, verif_root: str, canary: bool
     repo = Repo(repo_root)
     rules = Counter()
     info = {'functions': [], 'items': [], 'includes': []}
-    lines = open(template_path).read().split('\n')
+    def expand(path, depth=0):
+        res = []
+        for ln in open(path).read().split('\n'):
+            st = ln.strip()
+            if st.startswith('//@include '):
+                inc = st[len('//@include '):].strip()
+                info['includes'].append(inc)
+                if depth > 8:
+                    raise Unsupported('include depth')
+                res.extend(expand(os.path.join(verif_root, inc), depth + 1))
+            else:
+                res.append(ln)
+        return res
+    lines = expand(template_path)
     out = []
     i = 0
     fn_spans = []  # (first_line, last_line, fn name) in output, 1-based
     while i < len(lines):
         ln = lines[i]
         st = ln.strip()
-        if st.startswith('//@include '):
-            p = st[len('//@include '):].strip()
-            info['includes'].append(p)
-            out.extend(open(os.path.join(verif_root, p)).read().split('\n'))
-            i += 1
-        elif st.startswith('//@item '):
+        if st.startswith('//@item '):
             parts = [x.strip() for x in st[len('//@item '):].split('|')]
             rel, kn = parts[0], parts[1]
             kind, name = kn.split()
